@@ -13,6 +13,10 @@ for d in sorted(glob.glob('/verif/seeded/*/')):
     notes = ' '.join(open(np_).read().split())[:160]
   hist = m.get('history', [])
   first = hist[0]['detected'] if hist else m.get('detected')
+  if m.get('strengthened_before_first_run'):
+    first = '%s*' % first
+  if m.get('outside_claim'):
+    first = '%s (outside the claim)' % first
   rows.append((os.path.basename(d.rstrip('/')), m.get('demo_without_change_rc'),
                m.get('demo_with_change_rc'), first, m.get('detected'),
                (m.get('check_counterexamples') or [''])[0][:90], notes))
@@ -20,3 +24,6 @@ print('| change | demo clean/with | caught at first run | caught now | first cou
 print('|---|---|---|---|---|---|')
 for r in rows:
   print('| %s | %s / %s | %s | %s | `%s` | %s |' % (r[0], r[1], r[2], r[3], r[4], r[5].replace('|', '/'), r[6].replace('|', '/')))
+
+print()
+print('\\* the check had already been strengthened after reading the change description, before it was first run against it (round 1, third batch); from round 2 on the first run was taken on a frozen snapshot.')
